@@ -10,7 +10,7 @@ PROP = 'C11'
 def prof(seed):
     k = seed % 3
     base = dict(p_default=0.6, p_twodot=0.3, p_subdir=0.3, p_flag=0.05, p_opt=0.0, p_watch=0.05, p_phony=0.08, p_multi=0.3, user_symlinks=True)
-    ops = dict(uwrite=6, urm=4, build=9, repeat=2, force=2, edit_r=2, rm=1, doedit=1)
+    ops = dict(uwrite=6, urm=4, build=9, repeat=2, force=2, edit_r=2, rm=1, doedit=1, dorm_last=1, doadd=1)
     if k == 0:
         return gen.profile(ntgt=(2, 6), ops=ops, **base)
     if k == 1:
@@ -47,6 +47,17 @@ def hook(hr, step, op, entry, anoms, ctx):
                 # so a file created by hand afterwards needs no override warning
                 hr._roles[n] = 'none'
                 hr._pending_warn.pop(n, None)
+        for n, why_ in ctx['reasons'].items():
+            if (why_ or '').startswith('no-rule:') and ctx['done'].get(n) is False and not os.path.lexists(hr.path(n)):
+                # "no rule to redo" and no file: as after any failed build without output, the name is free again
+                hr._roles[n] = 'none'
+                hr._pending_warn.pop(n, None)
+        for n in ctx.get('became_static', ()):
+            # its rule is gone and redo has taken the file for a source: a later hand edit is an ordinary source edit
+            if hr._roles.get(n) == 'redo':
+                hr.stats['role_changes'] = hr.stats.get('role_changes', 0) + 1
+            hr._roles[n] = 'user'
+            hr._pending_warn.pop(n, None)
         r = hr.last_result
         text = (r.err or '') + (r.out or '')
         hr.stats['override_warnings_seen'] = hr.stats.get('override_warnings_seen', 0) + len(OVERRIDE_RE.findall(text))
